@@ -276,7 +276,8 @@ def rule_b(ctx):
     for b, st, ops in lits:
         if "use_doc_css" in ops:
             k = op_const(ops["use_doc_css"])
-            ctx.check(bool(k) and k.get("int") == 0, "C18-B", "Config-literal:use_doc_css=false@%s" % fn_key(b), st["span"], b.id, "")
+            same = direct_field(b, ops["use_doc_css"]) == ("config::Config", "use_doc_css")  # `Self { .., ..self }` keeps the value
+            ctx.check((bool(k) and k.get("int") == 0) or same, "C18-B", "Config-literal:use_doc_css=false@%s" % fn_key(b), st["span"], b.id, "")
     for b, st, ops in options.literal_inits(F, "HtmlContext"):
         if "use_doc_css" in ops:
             ctx.check(direct_field(b, ops["use_doc_css"]) == ("config::Config", "use_doc_css"), "C18-B",
